@@ -38,10 +38,10 @@ def run(tier, seed, t0, only=None, pid=PID, obj=OBJ, files=FILES, shapes=None):
                                       backend=be, timeout=1200 if tier == 'quick' else 6000,
                                       name=f'{be}:{obj}-impl:{shape}:moore={moore}:plus_one={plus_one}:{grp[0]}'
                                            + ('' if part is None else f'@state{part}')))
-    nmem = 24 if tier == 'quick' else 300
+    nmem = 96 if tier == 'quick' else 600
     for shape in ('S11g2', 'S11g3', 'S11h2', 'S11g2h2', 'B11a'):
         for moore, plus_one in c01.MODES:
-            sds = [seed * 100000 + i for i in range(nmem)]
+            sds = [seed * 7919 + i * 104729 + 13 for i in range(nmem)]
             for i in range(0, nmem, 24):
                 tasks.append(dict(mod='vlib.trans', fn='member_instances',
                                   kw=dict(shape=shape, moore=moore, plus_one=plus_one, objective=obj, seeds=sds[i:i + 24]),
